@@ -7,7 +7,7 @@ from .. import model as M
 from .. import primcheck as PC
 from ..core import Report
 from ..interp import Raised
-from .common import TRUSTED_WIRE, cfg_class, require_no_errors, wire_results
+from .common import require_fresh_lookups, TRUSTED_WIRE, cfg_class, require_no_errors, wire_results
 
 META = {
     "level": "proof",
@@ -157,6 +157,7 @@ def run(rep: Report) -> None:
         n += 1
         rep.check(ok, "conservation-lemmas", lab, where, detail, key=f"lemma|{cfg_class(cfg)}|{cfg.impl}|{detail[:40]}")
     rep.floor("configurations", n, 1000)
+    require_fresh_lookups(rep)
 
     # (4) concrete networks: network-wide and per-node balance as polynomial identities
     for impl in ("casadi", "numpy"):
